@@ -45,8 +45,9 @@ theorem C01_counter {g : Graph} (hg : g.WF) {cfg : Cfg} {s : St} (h : Reach g cf
 /-! ### The lock-protected block, step by step
 
 In the model above the handling of a multi-parent successor — `with remaining_pred_count_lock:` decrement, test, `queue.put` —
-is ONE step.  `Model/EngineFine.lean` splits it into five (acquire, decrement, test, put, release), with every other thread
-free to take any of its own steps in between (a second thread that wants the lock waits).  `Lemmas/EngineRefine.lean` proves
+is ONE step, and so is the failure bookkeeping under `failure_lock`.  `Model/EngineFine.lean` splits each block into five
+steps (acquire; decrement, test, put — resp. count, set the first error, decide `stop` —; release), with every other thread
+free to take any of its own steps in between (a second thread that wants the same lock waits; the two locks are independent).  `Lemmas/EngineRefine.lean` proves
 that every reachable state of that finer model stands for a reachable state of the coarse one (`refine_reach`: the five steps
 are `stutter, stutter, stutter, release, stutter`), so the safety theorems carry over — the reduction "lock-protected region
 = one atomic step" is a theorem for this lock, not an assumption. -/
@@ -61,7 +62,7 @@ theorem C01_fine {g : Graph} (hg : g.WF) {cfg : Cfg} {s : St2} (h : Reach2 g cfg
     s.c.begun.Nodup ∧
     (∀ r, s.lock = some r → r.stage = .acquired → 1 ≤ s.c.rem r.y) := by
   obtain ⟨hr, _⟩ := refine_reach hg h
-  obtain ⟨_, _, _, _, _, _, _, hb, ho, _⟩ := abs_fields s
+  obtain ⟨_, _, _, _, _, hb, ho, _⟩ := abs_fields s
   refine ⟨?_, ?_, ?_, fun r hl hst => dec_positive hg h hl hst⟩
   · intro x hx p hp
     have := C01_direct hg hr x (by rw [hb]; exact hx) p hp
@@ -83,7 +84,7 @@ def diamondFine : List EngineFine.Label2 :=
    .acquire 1 3, .dec 1, .base (.finOk 0), .test 1, .put 1, .unlock 1,
    .acquire 0 3, .dec 0, .test 0, .put 0, .unlock 0]
 example : ((EngineFine.run2? diamond ⟨2, some 0⟩ (EngineFine.init2 diamond) diamondFine).map
-    (fun s => (s.c.queue, s.c.rem 3, s.lock.isSome))) = some ([.node 3], 0, false) := by decide
+    (fun s => (s.c.queue, s.c.rem 3, s.lock.isSome, s.flock.isSome))) = some ([.node 3], 0, false, false) := by decide
 example : ((EngineFine.run2? diamond ⟨2, some 0⟩ (EngineFine.init2 diamond)
     (diamondFine.take 16 ++ [.acquire 0 3])).isSome) = false := by decide
 
